@@ -269,12 +269,23 @@ def abs7(ctx, pid):
         key = f.params[1]
         rows = {}
         problems = []
-        for p in ctx.X.paths(f):
+        from .. import pq as _pq
+        feasible = {}
+        for p, st in _pq.states(ctx, f):
+            feasible[id(p)] = p
+        for p in feasible.values():  # (paths the term engine refutes - a test on a value just assigned - are not rows)
             if p.exit[0] != "return":
                 continue
             incache = None
             live = None
             for ev in p.events:
+                if ev.k == "src" and isinstance(ev.node, ast.Subscript) and util.self_attr(ev.node.value, f, "cache") \
+                        and isinstance(ev.node.slice, ast.Name) and ev.node.slice.id == key and ev.a in ("ok", "KeyError") \
+                        and any(isinstance(t_, ast.Try) and util.contains(t_, ev.node) and any(h.type is not None and "KeyError" in ast.unparse(h.type) for h in t_.handlers)
+                                for t_ in ast.walk(f.node)):
+                    incache = ev.a == "ok"  # try: v = self.cache[key] except KeyError: ..  is the test `key in self.cache`
+                    if not incache:
+                        live = None
                 if ev.k != "assume":
                     continue
                 n = ev.node
